@@ -903,19 +903,26 @@ def run(ctx):
     # than the drop distance of these files: that retention is not the recorded finding.)
     H_rec = RECORDED_CAP + 2
     sconfigs = []
-    for i in range(6 if quick else 16):
+    # drop distances from just outside the recorded class upward, so that a channel only slightly deeper than
+    # the recorded one already has a file here on which the consumer can fall behind the drop
+    buckets = [(H_rec, H_rec + 1), (H_rec + 2, 14), (15, 35), (36, 64)]
+    for i in range(8 if quick else 20):
         sbs = [512, 1024, 2048, 4096][i % 4]
-        cont = "plain" if i % 3 != 2 else "gz"
-        for _try in range(40):
-            # uniform-ish short lines: between 10 and 60 messages inside the two blocks drop_data_try stays behind
-            per2 = rng.randrange(10, 60)
+        cont = "plain" if i % 4 != 3 else "gz"
+        dlo, dhi = buckets[i % len(buckets)]
+        for _try in range(300):
+            # uniform-ish short lines: per2 messages inside the two blocks drop_data_try stays behind
+            per2 = rng.randrange(max(6, dlo), 2 * dhi + 4)
             ln = max(24, 2 * sbs // per2)
             base = [(ln + rng.randrange(0, 3), True) for _ in range(max(24, 6 * sbs // ln))]
             cf = dict(kind="slowsafe", bs=sbs, container=cont, base=base, avoid_edges=True)
-            big = dict(cf, mult=mults[-1])
-            lay = layout_of(big)
+            d4 = U.min_drop_distance(layout_of(dict(cf, mult=4)), sbs)
+            if d4 is None or not (dlo <= d4 <= dhi + 6):
+                continue
+            lay = layout_of(dict(cf, mult=mults[-1]))
             d = U.min_drop_distance(lay, sbs)
-            if d is not None and d >= H_rec and not U.line_ends_on_block_edge(lay, sbs, cont):
+            if d is not None and dlo <= d <= dhi and not U.line_ends_on_block_edge(lay, sbs, cont):
+                cf["drop_distance"] = d
                 sconfigs.append(cf)
                 break
     sjobs = [(ci, mu, dict(cf, mult=mu)) for ci, cf in enumerate(sconfigs) for mu in mults]
@@ -931,6 +938,7 @@ def run(ctx):
     for ci, cf in enumerate(sconfigs):
         rs = [r for (cj, mu, c), r in zip(sjobs, sres) if cj == ci]
         desc0 = dict(kind=cf["kind"], bs=cf["bs"], container=cf["container"], avoid_edges=True, plan="max_us=0,poll_us=200",
+                     drop_distance=cf["drop_distance"],
                      recorded_channel_capacity=RECORDED_CAP, channel_capacity_in_source=cap)
         if any(r is None or r["printed_syslines"] != r["messages"] for r in rs):
             ctx.failure(dict(desc0, base=cf["base"][:200], mults=mults), "a run that ends with a summary", "run failed / hang", [])
@@ -1111,7 +1119,7 @@ def run(ctx):
                       impl_free=[s2[k] for k in MARKS] if s2 else None)
                  for c, m, s, (s2, _p) in list(zip(bcases, model, r1, r2))[:3] + list(zip(bcases, model, r1, r2))[-4:-2]],
         channel_capacity=cap, H=H, recorded_channel_capacity=RECORDED_CAP, window_constants_scraped=list(wc),
-        Cslow_configs=len(sconfigs), Cslow_runs_compared=cs_cmp, Cslow_above_model_at_recorded_lag=cs_bad, Cslow_growing=cs_grow,
+        Cslow_configs=len(sconfigs), Cslow_drop_distances=sorted(cf["drop_distance"] for cf in sconfigs), Cslow_runs_compared=cs_cmp, Cslow_above_model_at_recorded_lag=cs_bad, Cslow_growing=cs_grow,
         Cslow_drop_sysline_err_max=cs_err_max,
         B1_exact_compared=b1_cmp, B1_disagreements=b1_dis, B1_rejected_by_blockzero_gate=b1_rejected, B1_not_lagfree=b1_lagged,
         B2_interval_compared=b2_cmp, B2_outside_interval=b2_dis, B2_strictly_above_nolag=b2_strict_inside,
